@@ -160,7 +160,7 @@ func (e *Engine) verifIntrinsic(fn *ssa.Function, args []Value) (Value, bool) {
 		return dump(args[0], 0), true
 	case "TypeName":
 		if it, ok := args[0].(Iface); ok && it.T != nil {
-			return types.TypeString(it.T, nil), true
+			return types.TypeString(it.T, func(p *types.Package) string { return p.Name() }), true
 		}
 		return "<nil>", true
 	}
